@@ -348,9 +348,9 @@ def r02_4_weekday_anchor(ctx: Ctx) -> RuleResult:
 
 # shared with C13: the Hebrew / generic year-start caches feed every date computation; a slot trusted for the wrong year
 # makes month lengths and day numbers depend on what was asked before (reported under its home id R13.1)
-from .c13 import r13_1_year_cache_keys as _r13_1  # noqa: E402
+# (cross-registration moved to sa/rules/shared.py: SHARED)
 
-rule("C02")(_r13_1)
+# (cross-registration moved to sa/rules/shared.py: SHARED)
 
 
 # ------------------------------------------------------------------------------------------- R02.5 / R02.6
@@ -552,9 +552,9 @@ def r02_7_hebrew_molad(ctx: Ctx) -> RuleResult:
 
 # shared with C01: the two directions of the within-year conversion (day-of-year -> month/day and month -> first day) of every
 # calculator and year kind, Hebrew included (home ids R01.5 / R01.5b)
-from .c01 import r01_5_per_year_consistency as _r01_5  # noqa: E402
+# (cross-registration moved to sa/rules/shared.py: SHARED)
 
-rule("C02")(_r01_5)
+# (cross-registration moved to sa/rules/shared.py: SHARED)
 
 
 # ------------------------------------------------------------------------------------------- R02.8 registry round trip
